@@ -692,7 +692,7 @@ int main(int argc, char** argv)
   spec.bounds_quick = "n=1..6 levels, g in {0,1,2}; 13 uniform smoother patterns (8 presence + 5 alias) + all 64 per-level presence "
     "combinations for n=3; coarse solver none/own/alias; 3 filter variants; Fixed/MinEnergy/MinDefect; all (top,coarse) sub-ranges x {V,F,W}; "
     "BFS to closure for n<=4, histories up to 2 ops for n>=5 (with reduced configuration product for n>=5 and for the Poisson value set); dyadic value set for all, Poisson value set for a sub-family; all unit defects + dense, all-negative and 2^+-400 / 2^+-900 scaled defects at depth 0; per (cycle,top,coarse): bystander MultiGrid, value update + numeric re-init, full re-init; levels alternately via MultiGridLevelStd / a user-defined level class; coarse level in positive and negative form; configuration by constructor or by setters before init";
-  spec.bounds_thorough = "full configuration product for n<=6 (Poisson value set at n=6: 5 patterns x coarse none/own x filter none/same), BFS to closure for n<=5 and histories up to 3 ops (2 for the non-core patterns) for n=6, all 512 per-level presence combinations for n=4";
+  spec.bounds_thorough = "full configuration product for n<=6 (Poisson value set at n=6: 5 patterns x coarse none/own x filter none/same), BFS to closure for n<=4, histories up to 4 ops for n=5 and up to 3 ops (2 for the non-core patterns and the Poisson value set) for n=6, all 512 per-level presence combinations for n=4";
   spec.assumptions = {
     "sub-solvers are linear maps that respect the level filter (S = Fc S' Fd), as real FEAT solvers which carry their filter",
     "the defect passed to apply() is filtered (FEAT convention)",
@@ -1013,7 +1013,7 @@ int main(int argc, char** argv)
 
         // ---- BFS over histories, states keyed by the counter vector
         const bool core5_ = (pi == 0 || pi == 3 || pi == 7 || pi == 10 || pi == 12);
-        const size_t maxdepth = c.thorough ? (n <= 5 ? 99 : (core5_ ? 2 : 1)) : (n <= 4 ? 99 : 1); // histories longer than this are not expanded
+        const size_t maxdepth = c.thorough ? (n <= 4 ? 99 : n == 5 ? 3 : ((core5_ && vs == 0) ? 2 : 1)) : (n <= 4 ? 99 : 1); // histories longer than this are not expanded
         std::map<std::vector<int>, std::vector<size_t>> seen; // counters -> history reaching it
         std::deque<std::vector<size_t>> queue;
         seen[std::vector<int>(size_t(n + g), 0)] = std::vector<size_t>();
